@@ -895,7 +895,11 @@ struct VM : VMBase
       }
       int gen = slot < slots.size() ? slots[slot].generation + 1 : 1;
       record(EV_CREATE_LOGGER, op.v[0], op.v[1], 0, gen);
-      std::string name = "lg" + std::to_string(op.v[3] ? op.v[3] : op.v[0]);
+      // name index 0 = "the same name": the name the slot's logger had last (the one a blocking removal has just freed) — not
+      // the slot's first name, which an *asynchronous* removal may have left pending many steps earlier (documented as
+      // unsupported; a false crash:Aborted at VERIF_SEED=109, DESIGN.md Corrections 19)
+      std::string name = op.v[3] ? "lg" + std::to_string(op.v[3])
+                                 : (slot < slots.size() && !slots[slot].name.empty() ? slots[slot].name : "lg" + std::to_string(op.v[0]));
       make_logger(static_cast<int>(slot), op.v[1], static_cast<int>(op.v[2]), name);
       slots[slot].generation = gen;
       Ev& ce = record(EV_CREATE_LOGGER, op.v[0], slots[slot].sink_mask, 1, gen);
